@@ -27,7 +27,12 @@ type src struct {
 	inlinedCalls map[*ast.CallExpr]bool   // helper calls that have a copy of the helper's body behind them
 }
 
-func load(dirs ...string) (*src, error) {
+func load(dirs ...string) (*src, error) { return loadWith(true, dirs...) }
+
+// loadRaw parses without the normalisation pre-pass (for queries about a function body as written).
+func loadRaw(dirs ...string) (*src, error) { return loadWith(false, dirs...) }
+
+func loadWith(norm bool, dirs ...string) (*src, error) {
 	s := &src{fset: token.NewFileSet(), files: map[string]*ast.File{}}
 	for _, d := range dirs {
 		ents, err := os.ReadDir(d)
@@ -47,7 +52,9 @@ func load(dirs ...string) (*src, error) {
 			s.files[n] = f
 		}
 	}
-	s.normalize()
+	if norm {
+		s.normalize()
+	}
 	return s, nil
 }
 
